@@ -20,3 +20,5 @@ func writerInvoke(e *actor.Engine, addr string, stream remote.DRPCRemote_Receive
 func readerReceive(e *actor.Engine, stream remote.DRPCRemote_ReceiveStream) error {
 	return remote.VerifReaderReceive(e, stream)
 }
+
+func unwrapDeliver(msg any) (wireDeliver, bool) { return remote.VerifUnwrapDeliver(msg) }
